@@ -237,7 +237,7 @@ pub fn strategy(g: &GenCfg) -> BoxedStrategy<Case> {
             if let Some(c) = canc {
                 actors.push(c);
             }
-            Case { fam: "mutex".into(), workers, pool, feat, cfg: vec![], actors, sched }
+            Case { fam: "mutex".into(), workers, pool, feat, cfg: vec![], actors, sched, weak: 0 }
         })
         .boxed()
 }
